@@ -334,6 +334,8 @@ def case_line(c):
 def case_lines(c):
     if c["op"] == "history":
         return [case_line(step_case(c, st)) for st in c["steps"]]
+    if c["op"] == "trace":
+        return [trace_line(c)]
     return [case_line(c)]
 
 
@@ -362,7 +364,9 @@ def run_impl(c):
 
 
 def short(c):
-    d = {k: c[k] for k in ("op", "n", "fr", "kind", "p", "filters", "mode") if k in c}
+    d = {k: c[k] for k in ("op", "n", "fr", "kind", "p", "filters", "mode", "target") if k in c}
+    if c["op"] == "trace":
+        d["ops"] = describe_ops(c)
     if c["op"] == "history":
         d["steps"] = [(st["target"], "force_real" if st["fr"] else "plain") for st in c["steps"]]
     if "kind" in d:
@@ -389,6 +393,10 @@ def gen_cases(ctx, count):
         n, times = gen_grid(rng, nmax)
         dt = times[1] - times[0]
         vals = gen_values(rng, n)
+        u = rng.random()
+        if u < 0.1:
+            cases.append(gen_trace(rng, n, times))
+            continue
         u = rng.random()
         if u < 0.14:
             cases.append(gen_history(rng, n, times))
@@ -480,6 +488,31 @@ def correspondence(ctx, exe, count):
                 lim.fail(tag + ":table", "corr:%s:n=%d:table-modified" % (tag, c["n"]),
                          "filtering modified the caller's stored response table (%s); case %s" % (c["mode"], short(c)), {"kind": "corr", "case": c})
             continue
+        if c["op"] == "trace":
+            tag = "trace:%s" % ("FunctionSignal" if c["target"] == "fs" else "Signal")
+            dist[tag] = dist.get(tag, 0) + 1
+            ctx.case(key=("trace", c["target"], c["n"], str(c["ops"]), hexs(c["values"][:6])), nontrivial=any(v != 0 for v in c["values"]), sample=short(c))
+            flat = np.array(parse_floats(all_outs[lo]), dtype=float)
+            try:
+                impls, tols = run_trace(c)
+            except Exception as e:
+                bad += 1
+                lim.fail(tag, "corr:%s:n=%d:exception" % (tag, c["n"]), "op history raised %s: %s; case %s" % (type(e).__name__, e, short(c)), {"kind": "corr", "case": c})
+                continue
+            for i, (im, tol) in enumerate(zip(impls, tols)):
+                mo = flat[i * c["n"]:(i + 1) * c["n"]]
+                d = float(np.max(np.abs(im - mo))) if im.shape == mo.shape else float("inf")
+                if tol > 0 and d < float("inf"):
+                    worst = max(worst, d / tol)
+                if not d <= tol:
+                    bad += 1
+                    lim.fail(tag, "corr:%s:n=%d:op=%d" % (tag, c["n"], i),
+                             "one %s object, history [%s]: .values after op %d differs from the model state machine: |impl-model|=%.3g > %.3g "
+                             "(impl %r, model %r at the worst sample)" % (tag.split(":")[1], describe_ops(c, i + 1), i + 1, d, tol,
+                             im[int(np.argmax(np.abs(im - mo)))] if im.shape == mo.shape else None, mo[int(np.argmax(np.abs(im - mo)))] if im.shape == mo.shape else None),
+                             {"kind": "corr", "case": c, "op_index": i})
+                    break
+            continue
         o = all_outs[lo]
         model = np.array(parse_floats(o), dtype=float)
         try:
@@ -515,6 +548,81 @@ def correspondence(ctx, exe, count):
     ctx.extra["correspondence"] = {"cases": len(cases), "disagreements": bad, "distribution": dist,
                                    "worst_difference_over_tolerance": worst,
                                    "tolerance": "1e-9 * max|x| * max(1, max|H|) per sample (spectrum: * N; frequencies: exact); histories: every application of one stored response object against the model of the pure response, tables unmodified"}
+
+
+# ----------------------------------------------------------------------------- op histories on ONE object
+def gen_trace(rng, n, times):
+    """A history of operations on ONE signal object: filters, in-place scalings, reads of the lazily cached
+    properties, copies / re-gridding onto the same times; .values is read (and compared) after every op."""
+    dt = times[1] - times[0]
+    ops = []
+    for _ in range(rng.randint(3, 7)):
+        u = rng.random()
+        if u < 0.35:
+            while True:
+                k, p1, p2, p3 = gen_response(rng, n, dt)
+                if k != 3 or rng.random() < 0.3:
+                    break
+            ops.append(["F", k, [p1, p2, p3], rng.randint(0, 1)])
+        elif u < 0.55:
+            ops.append(["S", rng.choice([2.0, 0.5, -3.0, 10.0 ** rng.randint(-6, 6), rng.uniform(-4, 4) or 1.5])])
+        elif u < 0.7:
+            ops.append(["D", rng.choice([2.0, 0.25, -5.0, 10.0 ** rng.randint(-6, 6), rng.uniform(0.2, 4)])])
+        elif u < 0.85:
+            ops.append(["R", rng.choice(["spectrum", "envelope", "values", "frequencies"])])
+        else:
+            ops.append(["R", rng.choice(["copy", "with_times"])])
+    return {"op": "trace", "target": rng.choice(["fs", "fs", "sg"]), "n": n, "times": times, "values": gen_values(rng, n), "ops": ops}
+
+
+def trace_line(c):
+    parts = []
+    for o in c["ops"]:
+        if o[0] == "F":
+            parts.append("F %d %s %d" % (o[1], hexs(o[2]), o[3]))
+        elif o[0] in ("S", "D"):
+            parts.append("%s %s" % (o[0], hexs([o[1]])))
+        else:
+            parts.append("R")
+    return "trace %s %d %s %d %s %s" % (c["target"], len(c["ops"]), " ".join(parts), c["n"], hexs(c["times"]), hexs(c["values"]))
+
+
+def run_trace(c):
+    """The history on the real object; returns ([values after each op], [tolerance after each op])."""
+    import pyrex
+    t = np.array(c["times"], dtype=float)
+    vals = np.array(c["values"], dtype=float)
+    sig = pyrex.FunctionSignal(t, lambda tt: vals.copy()) if c["target"] == "fs" else pyrex.Signal(t, vals.copy())
+    np.asarray(sig.values)
+    outs, tols = [], []
+    scale = max([abs(v) for v in c["values"]] + [0.0])
+    for o in c["ops"]:
+        if o[0] == "F":
+            sig.filter_frequencies(py_response(o[1], *o[2]), force_real=bool(o[3]))
+            scale *= max(1.0, hmax(o[1], *o[2]))
+        elif o[0] == "S":
+            sig *= o[1]
+            scale *= abs(o[1])
+        elif o[0] == "D":
+            sig /= o[1]
+            scale /= abs(o[1])
+        elif o[1] == "copy":
+            sig = sig.copy()
+        elif o[1] == "with_times":
+            sig = sig.with_times(np.array(c["times"], dtype=float))
+        else:
+            np.asarray(getattr(sig, o[1]))
+        outs.append(np.array(sig.values, dtype=float))
+        tols.append(1e-9 * scale + tol_floor(c["n"]))
+    return outs, tols
+
+
+def describe_ops(c, upto=None):
+    names = []
+    for o in c["ops"][:upto]:
+        names.append({"F": "filter(%s%s)" % (KIND_NAMES.get(o[1], "?") if o[0] == "F" else "", ",force_real" if o[0] == "F" and o[3] else ""),
+                      "S": "*= %r" % (o[1],), "D": "/= %r" % (o[1],), "R": "read %s" % o[1]}[o[0]])
+    return " ; ".join(names)
 
 
 # ----------------------------------------------------------------------------- derived FunctionSignals
@@ -992,14 +1100,16 @@ def gen_response_of(rng, kind, n, dt):
 # ----------------------------------------------------------------------------- entry points
 EXTRACT_REQ = "From PyrexLib Require Import DFT.\nFrom PyrexModel Require Import FilterModel."
 EXTRACT_CMD = ('Extract Constant Int_part => "(fun x -> int_of_float (floor x))".\n'
-               'Extraction "filt.ml" filter_frequencies apply_filters fft_l ifft_l fftfreq delay_response full_times function_signal_values sig_dt n_buffer.')
+               'Extraction "filt.ml" filter_frequencies apply_filters fft_l ifft_l fftfreq delay_response full_times function_signal_values sig_dt n_buffer fs_trace sg_trace fs_init.')
 
 
 PINS = [("pyrex/signals.py", "Signal.filter_frequencies"), ("pyrex/signals.py", "Signal._get_filter_response"),
         ("pyrex/signals.py", "FunctionSignal._apply_filters"), ("pyrex/signals.py", "FunctionSignal.filter_frequencies"),
         ("pyrex/signals.py", "Signal.spectrum"), ("pyrex/signals.py", "Signal.frequencies"), ("pyrex/signals.py", "Signal.dt"),
         ("pyrex/signals.py", "FunctionSignal._full_times"), ("pyrex/signals.py", "FunctionSignal._value_window"),
-        ("pyrex/signals.py", "FunctionSignal.values"), ("pyrex/signals.py", "FunctionSignal.set_buffers"), ("pyrex/signals.py", "FunctionSignal.with_times")]
+        ("pyrex/signals.py", "FunctionSignal.values"), ("pyrex/signals.py", "FunctionSignal.set_buffers"), ("pyrex/signals.py", "FunctionSignal.with_times"),
+        ("pyrex/signals.py", "FunctionSignal.__imul__"), ("pyrex/signals.py", "FunctionSignal.__itruediv__"), ("pyrex/signals.py", "FunctionSignal.copy"),
+        ("pyrex/signals.py", "Signal.__imul__"), ("pyrex/signals.py", "Signal.__itruediv__")]
 
 
 def run(ctx):
@@ -1061,6 +1171,24 @@ def replay(ctx, obj):
                     rc = 1
         print("stored response table unmodified afterwards:", intact)
         return rc or (0 if intact else 1)
+    if obj.get("kind") == "corr" and obj["case"].get("op") == "trace":
+        c = obj["case"]
+        print("one %s object, n=%d, history: %s" % ("FunctionSignal" if c["target"] == "fs" else "Signal", c["n"], describe_ops(c)))
+        impls, tols = run_trace(c)
+        ctx.coq_build("C05")
+        exe = dft_extract.build(ctx, "c05", EXTRACT_REQ, EXTRACT_CMD, "filt", "c05_driver.ml")
+        if not exe:
+            return 1
+        flat = np.array(parse_floats(dft_extract.run_lines(exe, [trace_line(c)])[0]))
+        rc = 0
+        for i, (im, tol) in enumerate(zip(impls, tols)):
+            mo = flat[i * c["n"]:(i + 1) * c["n"]]
+            d = float(np.max(np.abs(im - mo)))
+            print("after op %d (%s): max |impl-model| = %.3g, tolerance %.3g -> %s" % (i + 1, describe_ops({"ops": [c["ops"][i]]}), d, tol, "AGREE" if d <= tol else "DISAGREE"))
+            if not d <= tol:
+                print("   implementation:", im[:6], "\n   model         :", mo[:6])
+                rc = 1
+        return rc
     if obj.get("kind") == "corr" and obj["case"].get("op") == "fsbuf":
         c = obj["case"]
         c["filters"] = [(k, tuple(p), fr) for (k, p, fr) in c["filters"]]
